@@ -69,6 +69,35 @@ def collation_safe(v):
     return kind(v) != 'text' or (v != '' and all(c in ALNUM for c in v))
 
 
+LOW_PUNCT = '[\\]^_`'
+
+
+def order_decided(a, b):
+    """is the order of two texts fixed by Excel's rules as far as the statement can be read?  Yes for
+    alphanumerics, and where the first difference puts one of [ \\ ] ^ _ ` (punctuation sorts before letters in
+    Excel) against a letter or against another of these six; not for punctuation against digits or other
+    characters (pycel's code point order and Excel's collation differ there)."""
+    la, lb = fold(a), fold(b)
+    if not (la and lb and all(c in ALNUM or c in LOW_PUNCT for c in la + lb)):
+        return False
+    for ca, cb in zip(la, lb):
+        if ca != cb:
+            pa, pb = ca in LOW_PUNCT, cb in LOW_PUNCT
+            if pa and pb:
+                return True
+            if pa or pb:
+                return (cb if pa else ca).isalpha()
+            return True
+    return True
+
+
+def texts_order_decided(values):
+    texts = [x for x in values if kind(x) == 'text']
+    if all(collation_safe(x) for x in texts):
+        return True
+    return all(order_decided(a, b) for i, a in enumerate(texts) for b in texts[i + 1:])
+
+
 def excel_sorted(values, descending=False):
     """numbers/text/logicals in Excel order (stable, so equal keys keep the given order)"""
     return sorted(values, key=okey, reverse=descending)
@@ -237,7 +266,7 @@ def match_approx(v, vec, mt):
     _, core, _ = strip_blanks(vec)
     if not is_sorted(core, mt):
         return False, set()       # interior blanks, error cells, unsorted: statement silent
-    if k == 'text' and not (collation_safe(v) and all(collation_safe(x) for x in core)):
+    if k == 'text' and not texts_order_decided([v] + list(core)):
         return False, set()
     acc = _scan_approx(v, vec, mt)
     if any(x is None for x in vec):
